@@ -147,6 +147,15 @@ class _Canonical(ast.NodeTransformer):
             node.left, node.right = r, l
         return node
 
+    def visit_If(self, node):
+        node = self.generic_visit(node)
+        # `if not c: A else: B` -> `if c: B else: A` (an elif chain in the else part is left alone)
+        if isinstance(node.test, ast.UnaryOp) and isinstance(node.test.op, ast.Not) and node.orelse \
+                and not (len(node.orelse) == 1 and isinstance(node.orelse[0], ast.If)):
+            node.test = node.test.operand
+            node.body, node.orelse = node.orelse, node.body
+        return node
+
     def visit_Compare(self, node):
         self.generic_visit(node)
         if len(node.ops) == 1 and type(node.ops[0]) in self._SWAP and _const_like(node.left) and not _const_like(node.comparators[0]):
@@ -166,8 +175,141 @@ class _Canonical(ast.NodeTransformer):
         return node
 
 
-def canonicalise(tree: ast.Module) -> ast.Module:
+def _binding_shapes(fn: ast.FunctionDef):
+    """[(shape, [bound local names])] for every binding statement of fn in source order.  The shape is the statement
+    with every identifier blanked, so a pure renaming leaves it unchanged."""
+    out = []
+
+    class Blank(ast.NodeTransformer):
+        def visit_Name(self, n):
+            return ast.copy_location(ast.Name(id="_", ctx=n.ctx), n)
+
+        def visit_arg(self, n):
+            n.arg = "_"
+            return n
+
+    def targets(t):
+        if isinstance(t, ast.Name):
+            return [t.id]
+        if isinstance(t, (ast.Tuple, ast.List)):
+            return [x for e in t.elts for x in targets(e)]
+        if isinstance(t, ast.Starred):
+            return targets(t.value)
+        return []
+
+    def rec(body):
+        for st in body:
+            names = []
+            if isinstance(st, ast.Assign):
+                for t in st.targets:
+                    names += targets(t)
+            elif isinstance(st, (ast.AnnAssign, ast.AugAssign)):
+                names += targets(st.target)
+            elif isinstance(st, ast.For):
+                names += targets(st.target)
+            elif isinstance(st, ast.With):
+                for it in st.items:
+                    if it.optional_vars is not None:
+                        names += targets(it.optional_vars)
+            if names:
+                head = st
+                if isinstance(st, (ast.For, ast.With)):
+                    head = copy.copy(st)
+                    head.body = [ast.Pass()]
+                    if isinstance(st, ast.For):
+                        head.orelse = []
+                import copy as _c
+                shape = ast.dump(Blank().visit(_c.deepcopy(head)))
+                out.append((shape, names))
+            if isinstance(st, (ast.FunctionDef, ast.ClassDef)):
+                continue
+            for fld in ("body", "orelse", "finalbody"):
+                sub = getattr(st, fld, None)
+                if isinstance(sub, list) and sub and isinstance(sub[0], ast.stmt):
+                    rec(sub)
+            for h in getattr(st, "handlers", []) or []:
+                if h.name:
+                    out.append(("except-as", [h.name]))
+                rec(h.body)
+    import copy
+    rec(fn.body)
+    return out
+
+
+def _rename_locals(fn: ast.FunctionDef, template) -> None:
+    """Alpha-rename locals of fn to the names recorded in `template` (list of (shape, names) of the reference tree) when
+    their binding statements line up; semantics-preserving, refuses on any conflict."""
+    import difflib
+    cur = _binding_shapes(fn)
+    if not cur or not template:
+        return
+    a = [s for s, _ in template]
+    b = [s for s, _ in cur]
+    mapping = {}
+    for blk in difflib.SequenceMatcher(None, a, b, autojunk=False).get_matching_blocks():
+        for k in range(blk.size):
+            tn, cn = template[blk.a + k][1], cur[blk.b + k][1]
+            if len(tn) != len(cn):
+                continue
+            for x, y in zip(tn, cn):
+                if y != x:
+                    if mapping.get(y, x) != x:
+                        return                       # inconsistent: leave the function alone
+                    mapping[y] = x
+    if not mapping:
+        return
+    params = {p.arg for p in fn.args.posonlyargs + fn.args.args + fn.args.kwonlyargs}
+    if fn.args.vararg:
+        params.add(fn.args.vararg.arg)
+    if fn.args.kwarg:
+        params.add(fn.args.kwarg.arg)
+    used = {n.id for n in ast.walk(fn) if isinstance(n, ast.Name)}
+    for old, new in mapping.items():
+        if old in params or new in params or (new in used and new not in mapping) or any(isinstance(n, (ast.Global, ast.Nonlocal)) for n in ast.walk(fn)):
+            return
+    if len(set(mapping.values())) != len(mapping):
+        return
+    nested = [n for n in ast.walk(fn) if isinstance(n, (ast.FunctionDef, ast.Lambda, ast.ListComp, ast.DictComp, ast.SetComp, ast.GeneratorExp)) and n is not fn]
+    if any(isinstance(n, (ast.FunctionDef, ast.Lambda)) for n in nested):
+        return
+    for n in ast.walk(fn):
+        if isinstance(n, ast.Name) and n.id in mapping:
+            n.id = mapping[n.id]
+        elif isinstance(n, ast.ExceptHandler) and n.name in mapping:
+            n.name = mapping[n.name]
+
+
+_LOCALNAMES = None
+
+
+def _load_localnames():
+    global _LOCALNAMES
+    if _LOCALNAMES is None:
+        import json
+        p = os.path.join(os.path.dirname(os.path.abspath(__file__)), "localnames.json")
+        try:
+            with open(p) as fh:
+                _LOCALNAMES = json.load(fh)
+        except OSError:
+            _LOCALNAMES = {}
+    return _LOCALNAMES
+
+
+def canonicalise(tree: ast.Module, rel: str = "") -> ast.Module:
     tree = _Canonical().visit(tree)
+    names = _load_localnames().get(rel, {}) if os.environ.get("VERIF_NO_RENAME") != "1" else {}
+    if names:
+        def walk(node, prefix):
+            for n in getattr(node, "body", []):
+                if isinstance(n, ast.ClassDef):
+                    walk(n, prefix + n.name + ".")
+                elif isinstance(n, ast.FunctionDef):
+                    q = prefix + n.name
+                    if any(isinstance(d, ast.Attribute) and d.attr == "setter" for d in n.decorator_list):
+                        q += ".setter"
+                    if q in names:
+                        _rename_locals(n, [(s, list(ns)) for s, ns in names[q]])
+        walk(tree, "")
     ast.fix_missing_locations(tree)
     return tree
 
@@ -207,7 +349,7 @@ class Repo:
                     with open(path, encoding="utf-8") as fh:
                         src = fh.read()
                 try:
-                    tree = canonicalise(ast.parse(src, filename=rel))
+                    tree = canonicalise(ast.parse(src, filename=rel), rel)
                 except SyntaxError as e:
                     raise AnalysisError("E1", f"{rel} does not parse: {e}")
                 name = rel[:-3].replace(os.sep, ".")
